@@ -315,9 +315,10 @@ def harnesses(tier):
     for hw in (0, 1, 2):
         hs.append(Harness('values %s %s' % (shape, names[hw]), body_values, params=dict(shape=shape, kinds=KINDS, how=hw), validate=15,
                           weight=3, bounds=dict(shape=shape, kinds=KINDS, change=names[hw], attached=[0, 1])))
-    hs.append(Harness('values with statistics %s' % (shape,), body_values,
-                      params=dict(shape=shape, kinds=['range', 'mask', 'ineq', 'invert'], stats=True, attached=1), validate=15, weight=6,
-                      bounds=dict(shape=shape, kinds=['range', 'mask', 'ineq', 'invert'], statistic='sum', histogram_bins=1)))
+    for kd in (['range'], ['ineq'], ['mask', 'invert']) if tier == 'quick' else (['range'], ['ineq'], ['mask'], ['invert'], ['rect']):
+        hs.append(Harness('values with statistics (2,) %s' % '+'.join(kd), body_values,
+                          params=dict(shape=(2,), kinds=kd, stats=True, attached=1, how=0 if tier == 'quick' else None), validate=15, weight=6,
+                          bounds=dict(shape=(2,), kinds=kd, statistic='sum', histogram_bins=1)))
     hs.append(Harness('values under cache pressure %s' % (shape,), body_values,
                       params=dict(shape=shape, kinds=['ineq', 'invert', 'range', 'or'], pressure=(130,), attached=1), validate=5, weight=6,
                       bounds=dict(shape=shape, kinds=['ineq', 'invert', 'range', 'or'], memoised_evaluations_before=260)))
